@@ -12,10 +12,8 @@ C50 — IDNA produces canonical A-labels and is idempotent; Punycode encode/deco
 * String level: the full inverse statements are `DecodeEncodeStatement` / `EncodeDecodeStatement`
   (kept as `def … : Prop`); proved here: the basic-code-point part (`decode_encode_ascii`,
   `encode_basic_prefix`) — `_partial`.
-* A-label branch of `Profile.process` (Punycode profile, exact model): undecodable payloads are
-  always rejected; ASCII-only payloads are NOT rejected by the code as it is under the pinned
-  toolchain (`alabel_statement_false`), nor for the empty payload even with `unicode16`
-  (`alabel_statement_false_u16`); `alabel_holds_partial` is the statement minus that region.
+* A-label branch of `Profile.process` (Punycode profile, exact model): `alabel_holds` — undecodable
+  payloads and payloads decoding to ASCII only (or to nothing) are rejected, whatever `unicode16`.
 * `monitor_sound`: every observation the V-tie monitor accepts satisfies the property clauses.
 -/
 set_option linter.unusedSimpArgs false
@@ -209,58 +207,31 @@ theorem encode_basic_prefix_partial (pfx s a : List Nat) (h : encode pfx s = som
 /-! ## A-label branch of `Profile.process` -/
 
 /-- The property clause on the exact model of `Punycode.process`: a domain with an `xn--` label
-whose payload is undecodable or decodes to ASCII only is rejected. -/
+whose payload is undecodable or decodes to ASCII only (possibly to nothing) is rejected. -/
 def ALabelStatement (u16 : Bool) : Prop :=
   ∀ (toASCII : Bool) (s : List Nat),
     (splitDots s).any (fun l => undecodableALabel l || asciiOnlyALabel l) = true →
     (processPunycode u16 toASCII s).2 = true
 
-/-- CONFIRMED deviation: with `unicode16 = false` (pinned go1.25 toolchain) the code accepts
-`xn--abc-` (result `abc`, no error). -/
-theorem alabel_statement_false : ¬ ALabelStatement false := by
-  intro h
-  have := h true [120, 110, 45, 45, 97, 98, 99, 45] (by decide)
-  revert this
-  decide
-
-/-- Even with `unicode16 = true` the clause fails for the empty payload (`len(u) > 0` gate):
-`ToASCII("xn--") = "", nil`. -/
-theorem alabel_statement_false_u16 : ¬ ALabelStatement true := by
-  intro h
-  have := h true [120, 110, 45, 45] (by decide)
-  revert this
-  decide
-
-/-- The statement outside the deviation region (no ASCII-only A-label): an undecodable payload is
-rejected, for both values of `unicode16` and for ToASCII and ToUnicode. -/
-theorem alabel_holds_partial (u16 toASCII : Bool) (s : List Nat)
-    (h : (splitDots s).any (fun l => undecodableALabel l || asciiOnlyALabel l) = true)
-    (hex : (splitDots s).any asciiOnlyALabel = false) :
-    (processPunycode u16 toASCII s).2 = true :=
-  Lemmas.Punycode.alabel_holds_partial u16 toASCII s h hex
-
-/-- With the `unicode16` gate open, non-empty ASCII-only payloads are rejected as well: the
-deviation is exactly the gate (plus the empty payload). -/
-theorem alabel_ascii_rejected_u16 (toASCII : Bool) (s : List Nat)
-    (h : (splitDots s).any asciiOnlyNonemptyALabel = true) :
-    (processPunycode true toASCII s).2 = true :=
-  Lemmas.Punycode.alabel_ascii_rejected_u16 toASCII s h
+/-- Full statement, for both values of `unicode16`, ToASCII and ToUnicode. (Before the repair of
+idna.go the ASCII-only clause was gated on `unicode16` and on `len(u) > 0`.) -/
+theorem alabel_holds (u16 : Bool) : ALabelStatement u16 := by
+  intro toASCII s h
+  exact Lemmas.Punycode.alabel_holds u16 toASCII s h
 
 /-! ## V-tie monitor -/
 
 /-- What an accepted observation guarantees. -/
 def ObsOK (o : Obs) : Prop :=
-  (asciiLower o.x = true → (splitDots o.x).any undecodableALabel = true → o.ae = true ∧ o.ue = true) ∧
+  (asciiLower o.x = true → (splitDots o.x).any badALabel = true → o.ae = true ∧ o.ue = true) ∧
   (asciiLower o.x = true → o.ue = false → o.u = expectedUnicode o.x) ∧
   (o.ae = false →
     (o.vonly = false → o.aa = o.a ∧ o.aae = false) ∧
     (o.transitional = false → o.vonly = false → (splitDots o.u).any hasAce = false → o.au = o.a ∧ o.aue = false) ∧
     (splitDots o.a).all aceLabelCanonical = true)
 
-theorem monitor_sound (o : Obs) (h : monitorObs o = none)
-    (hx : excluded o.x = false) (hu : excluded o.u = false) : ObsOK o := by
+theorem monitor_sound (o : Obs) (h : monitorObs o = none) : ObsOK o := by
   unfold monitorObs at h
-  simp only [hx, hu, Bool.or_self, Bool.false_eq_true, ↓reduceIte] at h
   unfold ObsOK
   repeat' split at h
   all_goals simp_all
@@ -274,7 +245,11 @@ example : decode [98, 99, 104, 101, 114, 45, 107, 118, 97] = some [98, 252, 99, 
 example : decodeVar 72 36 0 1 (encodeVar 72 36 745 ++ [7]) = some (745, [7]) := by decide +kernel
 example : undecodableALabel [120, 110, 45, 45, 45] = true := by decide
 example : asciiOnlyALabel [120, 110, 45, 45, 97, 98, 99, 45] = true := by decide
-example : processPunycode false true [120, 110, 45, 45, 97, 98, 99, 45] = ([97, 98, 99], false) := by decide
+/-- Former counterexamples ("xn--abc-", "xn--"): now rejected (the partially processed result is still returned). -/
+example : processPunycode false true [120, 110, 45, 45, 97, 98, 99, 45] = ([97, 98, 99], true) := by decide
+example : processPunycode true true [120, 110, 45, 45] = ([], true) := by decide
+example : processPunycode false false [120, 110, 45, 45, 120, 110, 45, 45, 97, 98, 99, 45, 45] =
+    ([120, 110, 45, 45, 97, 98, 99, 45], true) := by decide
 def sampleObs : Obs where
   transitional := false
   vonly := false
